@@ -160,6 +160,7 @@ def run(chk):
     from tsg.report import Check
     sub = Check("C10", chk.tier, chk.seed)
     c10.run(sub)
+    chk.absorb(sub)
     nchain = 0
     for o in sub.obls:
         if o["rule"] == "C10-D4.chain" or (o["rule"] == "C10-D1.partition" and "diffCanonicalTransform" in o["function"]) or (o["rule"] == "C10-D2.algebra" and "Jacobian" in o["construct"]):
